@@ -458,6 +458,37 @@ func (k *K) Settle(maxVirtual time.Duration, maxSteps int, idle func() bool) boo
 	return false
 }
 
+// ReconnectAll: the final phase of a liveness check. Every link among nodes 0..n-1 is cut long
+// enough for every membership poller to notice, then healed (each side sees the other join,
+// which is what triggers the head exchange), and the world settles fault-free.
+func (k *K) ReconnectAll(n int, maxVirtual time.Duration, maxSteps int, idle func() bool) bool {
+	k.F = BenignCfg()
+	for a := 0; a < n; a++ {
+		for b := a + 1; b < n; b++ {
+			if !k.W.IsCut(a, b) {
+				k.Cut(a, b)
+			}
+		}
+	}
+	for j := 0; j < 60; j++ {
+		k.Step()
+	}
+	k.Tick(2500 * time.Millisecond)
+	for j := 0; j < 40; j++ {
+		if en, _ := k.PendingCount(); en == 0 {
+			break
+		}
+		k.Step()
+	}
+	k.Tick(1500 * time.Millisecond)
+	for a := 0; a < n; a++ {
+		for b := a + 1; b < n; b++ {
+			k.Heal(a, b)
+		}
+	}
+	return k.Settle(maxVirtual, maxSteps, idle)
+}
+
 // ---------------- client operations ----------------
 
 type Op struct {
